@@ -48,8 +48,10 @@ use barter_data::{
     subscription::{SubKind, Subscription, exchange_supports_instrument_kind_sub_kind},
 };
 use barter_instrument::{
+    Keyed,
     exchange::ExchangeId,
     instrument::{
+        InstrumentIndex,
         kind::option::{OptionExercise, OptionKind},
         market_data::{
             MarketDataInstrument,
@@ -59,7 +61,7 @@ use barter_instrument::{
 };
 use chrono::{DateTime, TimeZone, Utc};
 use rust_decimal::Decimal;
-use std::{collections::HashMap, sync::Mutex, time::Duration};
+use std::{collections::HashMap, future::Future, pin::Pin, sync::Mutex, time::Duration};
 use tracing::{
     Event, Metadata,
     field::{Field, Visit},
@@ -160,6 +162,44 @@ fn connector_debug() -> Vec<String> {
 
 type Inst = MarketDataInstrument;
 type DSub = Subscription<ExchangeId, Inst, SubKind>;
+/// the keyed instrument type of `index_market_data_subscription_batches` (op `initk`, token `<key>~<instrument>`)
+type KInst = Keyed<InstrumentIndex, MarketDataInstrument>;
+type KSub = Subscription<ExchangeId, KInst, SubKind>;
+
+/// An instrument type `DynamicStreams::init` is driven with: its token and THE call under observation
+/// (the `where` clause of `init` is instantiated per type, so the call is written once per type).
+trait DInst: barter_data::instrument::InstrumentData + Ord + std::fmt::Debug + Clone + 'static {
+    fn tok(&self) -> String;
+    fn init(
+        batches: Vec<Vec<Subscription<ExchangeId, Self, SubKind>>>,
+    ) -> Pin<Box<dyn Future<Output = Result<[usize; 4], DataError>>>>;
+}
+
+impl DInst for Inst {
+    fn tok(&self) -> String {
+        inst_tok(self)
+    }
+    fn init(batches: Vec<Vec<DSub>>) -> Pin<Box<dyn Future<Output = Result<[usize; 4], DataError>>>> {
+        Box::pin(async move {
+            // THE function under observation
+            let ds = DynamicStreams::<Inst>::init::<_, _, DSub, Inst>(batches).await?;
+            Ok([ds.trades.len(), ds.l1s.len(), ds.l2s.len(), ds.liquidations.len()])
+        })
+    }
+}
+
+impl DInst for KInst {
+    fn tok(&self) -> String {
+        format!("{}~{}", self.key.index(), inst_tok(&self.value))
+    }
+    fn init(batches: Vec<Vec<KSub>>) -> Pin<Box<dyn Future<Output = Result<[usize; 4], DataError>>>> {
+        Box::pin(async move {
+            // THE function under observation, instantiated with `Keyed<InstrumentIndex, MarketDataInstrument>`
+            let ds = DynamicStreams::<InstrumentIndex>::init::<_, _, KSub, KInst>(batches).await?;
+            Ok([ds.trades.len(), ds.l1s.len(), ds.l2s.len(), ds.liquidations.len()])
+        })
+    }
+}
 
 fn time(ms: i64) -> DateTime<Utc> {
     Utc.timestamp_millis_opt(ms).unwrap()
@@ -255,16 +295,34 @@ fn parse_sub(t: &str) -> Option<DSub> {
     ))
 }
 
+/// `exchange,<key>~<instrument>,kind`
+fn parse_ksub(t: &str) -> Option<KSub> {
+    let p: Vec<&str> = t.split(',').collect();
+    if p.len() != 3 {
+        return None;
+    }
+    let (key, inst) = p[1].split_once('~')?;
+    Some(Subscription::new(
+        *ALL.get(nat(p[0])?)?,
+        Keyed::new(InstrumentIndex(nat(key)?), parse_inst(inst)?),
+        *KINDS.get(nat(p[2])?)?,
+    ))
+}
+
 /// `B | B | ...` -> batches (no token at all: no batch)
-fn parse_batches(toks: &[String]) -> Option<Vec<Vec<DSub>>> {
+fn parse_batches_with<S>(toks: &[String], parse: fn(&str) -> Option<S>) -> Option<Vec<Vec<S>>> {
     let mut out = vec![];
     if toks.is_empty() {
         return Some(out);
     }
     for part in toks.split(|t| t == "|") {
-        out.push(part.iter().map(|t| parse_sub(t)).collect::<Option<Vec<_>>>()?);
+        out.push(part.iter().map(|t| parse(t)).collect::<Option<Vec<_>>>()?);
     }
     Some(out)
+}
+
+fn parse_batches(toks: &[String]) -> Option<Vec<Vec<DSub>>> {
+    parse_batches_with(toks, parse_sub)
 }
 
 // ------------------------------------------------------------------------------------------------ the recorder
@@ -418,7 +476,7 @@ enum Res {
 /// started (seen under machine load: 3 of 21 arms). The runtime therefore has ONE blocking thread, and a gate
 /// task occupies it until the first poll of `init` has returned: every arm future has then been polled once —
 /// has logged what it constructed and queued its lookup — before any lookup can run.
-fn drive(rt: &tokio::runtime::Runtime, batches: Vec<Vec<DSub>>) -> (Vec<Ev>, Res, bool) {
+fn drive<I: DInst>(rt: &tokio::runtime::Runtime, batches: Vec<Vec<Subscription<ExchangeId, I, SubKind>>>) -> (Vec<Ev>, Res, bool) {
     EVENTS.lock().unwrap().clear();
     let mut timed_out = false;
     let res = rt.block_on(async {
@@ -426,9 +484,8 @@ fn drive(rt: &tokio::runtime::Runtime, batches: Vec<Vec<DSub>>) -> (Vec<Ev>, Res
         let gate_task = tokio::task::spawn_blocking(move || {
             let _ = gate.recv();
         });
-        // THE function under observation
-        let fut = DynamicStreams::<Inst>::init::<_, _, DSub, Inst>(batches);
-        tokio::pin!(fut);
+        // THE function under observation (`DInst::init`: `DynamicStreams::init` at the instrument type `I`)
+        let mut fut = I::init(batches);
         let first = futures::poll!(fut.as_mut());
         drop(open_gate);
         let _ = gate_task.await;
@@ -442,8 +499,7 @@ fn drive(rt: &tokio::runtime::Runtime, batches: Vec<Vec<DSub>>) -> (Vec<Ev>, Res
                 timed_out = true;
                 Res::Network
             }
-            Ok(Ok(ds)) => {
-                let n = [ds.trades.len(), ds.l1s.len(), ds.l2s.len(), ds.liquidations.len()];
+            Ok(Ok(n)) => {
                 if EVENTS.lock().unwrap().iter().any(|e| e.get("message") == Some(MSG_IMS)) {
                     Res::Connected
                 } else {
@@ -462,15 +518,20 @@ struct Tables {
     connectors: Vec<String>,
 }
 
-fn observe(rt: &tokio::runtime::Runtime, tables: &Tables, batches: Vec<Vec<DSub>>, lines: &mut Vec<String>) {
+fn observe<I: DInst>(
+    rt: &tokio::runtime::Runtime,
+    tables: &Tables,
+    batches: Vec<Vec<Subscription<ExchangeId, I, SubKind>>>,
+    lines: &mut Vec<String>,
+) {
     // the instruments of this op, by their `Debug` text
-    let mut by_debug: HashMap<String, Inst> = HashMap::new();
+    let mut by_debug: HashMap<String, I> = HashMap::new();
     for s in batches.iter().flatten() {
         by_debug.insert(format!("{:?}", s.instrument), s.instrument.clone());
     }
     // `sort_unstable_by_key` reorders equal keys from 21 elements on: then the order inside a group is not
     // compared (instruments sorted, display suppressed), as in c13v.rs
-    let long = match validate_batches::<_, _, DSub, Inst>(batches.clone()) {
+    let long = match validate_batches::<_, _, Subscription<ExchangeId, I, SubKind>, I>(batches.clone()) {
         Ok(vs) => vs.iter().any(|b| b.len() > 20),
         Err(_) => false,
     };
@@ -479,7 +540,7 @@ fn observe(rt: &tokio::runtime::Runtime, tables: &Tables, batches: Vec<Vec<DSub>
 
     let mut calls = 0usize;
     // (id, instrument, kind) of every subscription handed to a subscriber
-    let mut isubs: Vec<(String, Option<Inst>, String)> = vec![];
+    let mut isubs: Vec<(String, Option<I>, String)> = vec![];
     for ev in &evs {
         match ev.get("message") {
             Some(MSG_IMS) if ev.target == "barter_data::streams::consumer" => {
@@ -523,13 +584,13 @@ fn observe(rt: &tokio::runtime::Runtime, tables: &Tables, batches: Vec<Vec<DSub>
                                 })
                                 .collect(),
                         );
-                        let mut insts: Vec<Option<Inst>> = subs.iter().map(|(_, i, _)| by_debug.get(i).cloned()).collect();
+                        let mut insts: Vec<Option<I>> = subs.iter().map(|(_, i, _)| by_debug.get(i).cloned()).collect();
                         if long {
                             insts.sort();
                         }
                         let toks: Vec<String> = insts
                             .iter()
-                            .map(|i| i.as_ref().map(inst_tok).unwrap_or_else(|| "?".into()))
+                            .map(|i| i.as_ref().map(I::tok).unwrap_or_else(|| "?".into()))
                             .collect();
                         lines.push(
                             format!("conn {id} {kind} {conn} {url} {} {}", subs.len(), toks.join(" "))
@@ -556,7 +617,7 @@ fn observe(rt: &tokio::runtime::Runtime, tables: &Tables, batches: Vec<Vec<DSub>
     // which made the oracle depend on how asset names compare)
     let mut isub_lines: Vec<String> = isubs
         .iter()
-        .map(|(id, i, k)| format!("isub {id},{},{k}", i.as_ref().map(inst_tok).unwrap_or_else(|| "?".into())))
+        .map(|(id, i, k)| format!("isub {id},{},{k}", i.as_ref().map(I::tok).unwrap_or_else(|| "?".into())))
         .collect();
     isub_lines.sort();
     lines.extend(isub_lines);
@@ -604,6 +665,11 @@ fn run() {
             lines.push("@".into());
             match op[0].as_str() {
                 "init" => match parse_batches(&op[1..]) {
+                    Some(batches) => observe(&rt, &tables, batches, lines),
+                    None => lines.push("bad-op".into()),
+                },
+                // the same function at the instrument type `Keyed<InstrumentIndex, MarketDataInstrument>`
+                "initk" => match parse_batches_with(&op[1..], parse_ksub) {
                     Some(batches) => observe(&rt, &tables, batches, lines),
                     None => lines.push("bad-op".into()),
                 },
@@ -810,7 +876,94 @@ fn generate(seed: u64, n_cases: usize, tier: &str) {
             out.line(join_batches(&batches));
         }
     }
+    generate_keyed(seed, n_cases / 5, thorough, &sup, &mut out);
     out.flush();
+}
+
+/// `e,i,k` -> `e,<key>~i,k`
+fn with_key(sub: &str, key: u64) -> String {
+    let p: Vec<&str> = sub.split(',').collect();
+    format!("{},{}~{},{}", p[0], key, p[1], p[2])
+}
+
+/// CONFIGURATION-SHAPE family (separately seeded, ids `cfgk<n>`; the cases above are unchanged by it): the SAME
+/// `DynamicStreams::init`, instantiated with the keyed instrument type the engine's indexed streams are built from
+/// (`Keyed<InstrumentIndex, MarketDataInstrument>`, op `initk`). Batches as in the random family; the keys are
+/// either a proper index (one key per distinct (exchange, instrument) of the op, numbered in a shuffled order
+/// from an offset: key order != subscription order != instrument order) or drawn from a pool of 1 / 2 / 4 keys,
+/// so that ONE instrument occurs under SEVERAL keys (two subscriptions, both initialised) and SEVERAL
+/// instruments share ONE key (likewise: the key is the caller's business, `dedup` compares whole subscriptions).
+fn generate_keyed(seed: u64, n: usize, thorough: bool, sup: &[(usize, usize, usize)], out: &mut Out) {
+    let mut rng = Rng::new(seed ^ 0xC13D_0CF6);
+    // fixed: every arm at once under keys that run AGAINST the instrument order
+    let mut everything: Vec<String> = vec![];
+    let mut key = 100u64;
+    for e in 0..42 {
+        for k in 0..6 {
+            if let Some(t) = sup.iter().find(|x| x.0 == e && x.1 == k) {
+                let ik = CLASS_TOKS[t.2];
+                everything.push(format!("{e},{}~2/0/{ik},{k}", key));
+                everything.push(format!("{e},{}~5/1/{ik},{k}", key - 1));
+                key -= 2;
+            }
+        }
+    }
+    out.case("cfgk-every-arm");
+    out.line(format!("initk {}", everything.join(" ")));
+    out.line("initk");
+    out.line("initk |");
+    for id in 0..n {
+        out.case(format!("cfgk{id}"));
+        let nb = *rng.pick(&[2u64, 3, 6]);
+        for _ in 0..rng.range(1, 2) {
+            let big = rng.chance(if thorough { 8 } else { 3 });
+            let n_batches = rng.range(1, 3);
+            let mut batches: Vec<Vec<String>> = (0..n_batches)
+                .map(|_| if big { gen_batch(&mut rng, sup, 40, 3, 25) } else { gen_batch(&mut rng, sup, nb, 4, 4) })
+                .collect();
+            if batches.len() >= 2 && rng.chance(35) {
+                let d = batches[0].clone();
+                let take = rng.range(0, d.len() as i64) as usize;
+                let last = batches.len() - 1;
+                batches[last].extend(d.into_iter().take(take));
+            }
+            if rng.chance(12) {
+                let b = rng.below(batches.len() as u64) as usize;
+                let s = gen_any_sub(&mut rng, nb);
+                let at = rng.range(0, batches[b].len() as i64) as usize;
+                batches[b].insert(at, s);
+            }
+            let keyed: Vec<Vec<String>> = if rng.chance(45) {
+                // a proper index over the distinct (exchange, instrument) of the op, in a shuffled order
+                let mut distinct: Vec<String> = vec![];
+                for s in batches.iter().flatten() {
+                    let p: Vec<&str> = s.split(',').collect();
+                    let ei = format!("{},{}", p[0], p[1]);
+                    if !distinct.contains(&ei) {
+                        distinct.push(ei);
+                    }
+                }
+                shuffle(&mut rng, &mut distinct);
+                let offset = *rng.pick(&[0u64, 0, 7, 1000]);
+                batches
+                    .iter()
+                    .map(|b| {
+                        b.iter()
+                            .map(|s| {
+                                let p: Vec<&str> = s.split(',').collect();
+                                let ei = format!("{},{}", p[0], p[1]);
+                                with_key(s, offset + distinct.iter().position(|d| *d == ei).unwrap() as u64)
+                            })
+                            .collect()
+                    })
+                    .collect()
+            } else {
+                let pool = *rng.pick(&[1u64, 2, 2, 4]);
+                batches.iter().map(|b| b.iter().map(|s| with_key(s, rng.below(pool))).collect()).collect()
+            };
+            out.line(format!("initk {}", keyed.iter().map(|b| b.join(" ")).collect::<Vec<_>>().join(" | ")).trim_end().to_string());
+        }
+    }
 }
 
 fn main() {
